@@ -25,9 +25,9 @@ FAM = {"collimator": dict(UseCSR=False, VacuumGap=0.03, CollimatorRadius=0.005),
        "file": dict(VacuumGap=0.0)}
 
 
-def analyse(h, steps, rec):
-    rho = h["/BunchProfile/data"][rec, 0].astype(np.float64)
-    w = h["/WakePotential/data"][rec, 0].astype(np.float64)
+def analyse(h, steps, rec, b=0):
+    rho = h["/BunchProfile/data"][rec, b].astype(np.float64)
+    w = h["/WakePotential/data"][rec, b].astype(np.float64)
     q = h["/Info/AxisValues_z"].astype(np.float64)
     dq = q[1] - q[0]
     theta = 2 * np.pi / steps
@@ -42,21 +42,22 @@ def analyse(h, steps, rec):
 
 
 def reference_wake(h, d):
-    """wake potential recomputed from the stored profile, the stored impedance and the absolute scale implied by the
-    machine parameters (the C06 reference model): cells per step"""
-    n = d["n"]
+    """wake potentials recomputed from the stored profiles, the stored impedance and the absolute scale implied by the
+    machine parameters (the C06 reference model): cells per step, one row per bunch"""
+    n, nb = d["n"], d["nb"]
     N = d["nmax_wake"]
     Z = h["/Impedance/data/real"].astype(np.complex128) + 1j * h["/Impedance/data/imag"]
-    rho = h["/BunchProfile/data"][-1, 0].astype(np.float64)
     delta = float(np.float32(d["pq"] / (n - 1)))
     scale = d["Ib"] * d["dt"] * cfggen.C / d["bl"] / (delta * d["dE"])
+    sp = d["spacing_bins"] if d["nbuckets"] > 1 else 0
     kk = np.arange(N // 2)
     E = np.exp(-2j * np.pi * np.outer(kk, np.arange(N)) / N)
     P = np.zeros(N)
-    P[:n] = rho
+    for b in range(nb):
+        P[d["buckets"][b] * sp: d["buckets"][b] * sp + n] = h["/BunchProfile/data"][-1, b].astype(np.float64)
     Y = Z[:N // 2] * (E @ P)
     wv = np.real(Y[0] + 2 * (np.conj(E[1:]).T @ Y[1:]))
-    return scale / N * wv[:n]
+    return np.stack([scale / N * wv[d["buckets"][b] * sp: d["buckets"][b] * sp + n] for b in range(nb)])
 
 
 def run_case(case):
@@ -72,57 +73,73 @@ def run_case(case):
             for i in range(N):
                 f.write("%d %.9g %.9g\n" % (i, Z[i].real, Z[i].imag))
         o["Impedance"] = "z.dat"
-    o["DampingTime"] = P / d["fs"]
     I0 = 1e-3
-    pilot = dict(o, BunchCurrent=[I0], rotations=float(np.float32(0.5 / steps)), outstep=1)
+    pat = [1.0]
+    if case.get("ratio"):
+        # a second bunch with a different current: every bunch must balance against ITS OWN wake
+        pat = [1.0, case["ratio"]] if case.get("first_strong", True) else [case["ratio"], 1.0]
+        o["RoundPadding"] = True
+        o["alpha0"] = gen.f32(cfggen.alpha0_for_spacing(case["sps"], dict(o, BunchCurrent=pat)))
+    o["DampingTime"] = P / cfggen.derive(dict(o, BunchCurrent=pat))["fs"]
+    cls = [fam, "n%d" % n] + (["twobunch"] if len(pat) > 1 else [])
+    pilot = dict(o, BunchCurrent=[I0 * x for x in pat], rotations=float(np.float32(0.5 / steps)), outstep=1)
     r = cli.run(["-c", "/dev/null", "-o", "p.h5"] + cli.optargs(pilot), wd, timeout=600)
-    cls = [fam, "n%d" % n]
     if r.rc != 0 or "Finished." not in r.out:
         return Outcome(False, True, cls, "pilot run failed: %s %s" % (r.out[-300:], r.err[-300:]), sig="c05:runfail")
     hp = cli.H5(os.path.join(wd, "p.h5"))
-    _, _, D0 = analyse(hp, steps, 0)
+    D0 = max(analyse(hp, steps, 0, b)[2] for b in range(len(pat)))
     if not D0 > 0:
         return Outcome(True, False, cls, discard=True)
     I = I0 * case["D"] / D0
+    if I > 50.0:
+        # the impedance is so weak for this bunch length (e.g. fully shielded CSR) that no sane current reaches the target
+        return Outcome(True, False, cls + ["impedance_too_weak"], discard=True)
     nrec = 60
-    full = dict(o, BunchCurrent=[I], rotations=8.0 * P, outstep=max(1, int(8 * P * steps / nrec)), InitialDistZoom=case["zoom"])
+    cur = [I * x for x in pat]
+    full = dict(o, BunchCurrent=cur, rotations=8.0 * P, outstep=max(1, int(8 * P * steps / nrec)), InitialDistZoom=case["zoom"])
     r = cli.run(["-c", "/dev/null", "-o", "r.h5"] + cli.optargs(full), wd, timeout=900)
     if r.rc != 0 or "Finished." not in r.out:
         return Outcome(False, True, cls, "run failed: %s %s" % (r.out[-300:], r.err[-300:]), sig="c05:runfail")
     h = cli.H5(os.path.join(wd, "r.h5"))
-    prof = h["/BunchProfile/data"][:, 0].astype(np.float64)
+    prof = h["/BunchProfile/data"].astype(np.float64)
     if not np.isfinite(prof).all():
         return Outcome(True, False, cls + ["unstable"], discard=True)
-    k = max(2, len(prof) // 10)
+    k = max(2, prof.shape[0] // 10)
     stat = np.abs(prof[-k:] - prof[-1]).max() / prof[-1].max()
     if stat > 0.01:
         return Outcome(True, False, cls + ["not_stationary"], discard=True)
-    res, wrong, D = analyse(h, steps, -1)
-    # the same relation with the wake recomputed from the stored profile by the convolution formula (absolute scale
-    # from the machine parameters): this is what ties the sign and strength of the collective force to the impedance
     dd = cfggen.derive(full)
     wref = reference_wake(h, dd)
-    h.ds["/WakePotential/data"] = np.array(h["/WakePotential/data"], copy=True)
-    stored = h["/WakePotential/data"][-1, 0].copy()
-    h.ds["/WakePotential/data"][-1, 0] = wref
-    res2, wrong2, D2 = analyse(h, steps, -1)
-    h.ds["/WakePotential/data"][-1, 0] = stored
     delta = 12.0 / (n - 1)
-    # discretisation error of the stationary state depends on the derivative stencil and the interpolation order
-    # (calibrated: 0.9/0.45/0.2 delta^2 at small D, it=3 adds about 0.05*D); one step's splitting error is O(theta)*D
     cB = 1.6 if case["deriv"] == 3 else (0.8 if case["it"] == 3 else 0.4)
     cD = 0.07 if case["it"] == 3 else 0.02
-    tol = (cD + 2 * np.pi / steps) * D + cB * delta ** 2 + 0.003
-    nontriv = bool(D >= 0.05 and wrong >= 5 * tol)
-    met = {"residual_over_tol": res / tol, "D": D}
-    cls.append("D>0.3" if D > 0.3 else "D<=0.3")
-    if res > tol:
-        return Outcome(False, nontriv, cls, "stationary bunch does not satisfy ln rho + q^2/2 - (1/dtheta) int W dq = const: std over the core %.4f > %.4f (with the opposite sign of the wake term: %.4f); %s, D=%.3f, n=%d, steps=%d, current %.3g A" %
-                       (res, tol, wrong, fam, D, n, steps, I), sig="c05:haissinski:%s" % ("sign" if wrong < res else "strength"), metrics=met)
-    met["residual_refwake_over_tol"] = res2 / tol
-    if res2 > tol * 1.2:
-        return Outcome(False, nontriv, cls, "stationary bunch does not satisfy the Haissinski equation with the wake recomputed from its profile and the stored impedance: std over the core %.4f > %.4f (opposite sign: %.4f; with the stored wake: %.4f); %s, D=%.3f (recomputed %.3f), n=%d" %
-                       (res2, 1.2 * tol, wrong2, res, fam, D, D2, n), sig="c05:haissinski_refwake:%s" % ("sign" if wrong2 < res2 else "strength"), metrics=met)
+    met = {}
+    nontriv = False
+    h.ds["/WakePotential/data"] = np.array(h["/WakePotential/data"], copy=True)
+    for b in range(dd["nb"]):
+        res, wrong, D = analyse(h, steps, -1, b)
+        # discretisation error of the stationary state depends on the derivative stencil and the interpolation order
+        # (calibrated: 0.9/0.45/0.2 delta^2 at small D, it=3 adds about 0.05*D); one step's splitting error is O(theta)*D
+        tol = (cD + 2 * np.pi / steps) * D + cB * delta ** 2 + 0.003
+        nt = bool(D >= 0.05 and wrong >= 5 * tol)
+        nontriv = nontriv or nt
+        met["residual_over_tol"] = max(met.get("residual_over_tol", 0), res / tol)
+        met["D"] = max(met.get("D", 0), D)
+        if res > tol:
+            return Outcome(False, nt, cls, "stationary bunch %d of %d does not satisfy ln rho + q^2/2 - (1/dtheta) int W dq = const with its own recorded wake: std over the core %.4f > %.4f (with the opposite sign of the wake term: %.4f); %s, D=%.3f, n=%d, steps=%d, currents %s A" %
+                           (b, dd["nb"], res, tol, wrong, fam, D, n, steps, cur), sig="c05:haissinski:%s:%s" % ("sign" if wrong < res else "strength", "bunch0" if b == 0 else "bunch>=1"), metrics=met)
+        # the same relation with the wake recomputed from the stored profiles by the convolution formula (absolute scale
+        # from the machine parameters): this ties sign and strength of the collective force to the impedance
+        stored = h["/WakePotential/data"][-1, b].copy()
+        h.ds["/WakePotential/data"][-1, b] = wref[b]
+        res2, wrong2, D2 = analyse(h, steps, -1, b)
+        h.ds["/WakePotential/data"][-1, b] = stored
+        met["residual_refwake_over_tol"] = max(met.get("residual_refwake_over_tol", 0), res2 / tol)
+        if res2 > tol * 1.2:
+            return Outcome(False, nt, cls, "stationary bunch %d does not satisfy the Haissinski equation with the wake recomputed from the profiles and the stored impedance: std over the core %.4f > %.4f (opposite sign: %.4f; with the stored wake: %.4f); %s, D=%.3f (recomputed %.3f), n=%d" %
+                           (b, res2, 1.2 * tol, wrong2, res, fam, D, D2, n), sig="c05:haissinski_refwake:%s" % ("sign" if wrong2 < res2 else "strength"), metrics=met)
+    cls.append("D>0.3" if met["D"] > 0.3 else "D<=0.3")
+    D = met["D"]
     sp = float(h["/EnergySpread/data"][-1, 0])
     tau = (0.5 if case["deriv"] == 3 else 0.1) * delta ** 2 + 0.003 + 0.005 + 0.03 * D
     met["espread_dev"] = abs(sp - 1) / tau
@@ -147,12 +164,17 @@ def cases(draw, fast=True):
     # "weak, stable impedance": quadratic interpolation and free-space CSR stay below D = 0.5 (beyond that the
     # discretised system is visibly dissipative / close to the instability threshold: calibration runs)
     dmax = 0.5 if (it == 3 or fam == "freespace") else 1.0
+    two = fam != "file" and draw(st.integers(0, 2)) == 0
+    # a train is only informative if the two bunches' wakes differ by much more than the tolerance
+    dlo = 0.3 if two else 0.05
     return dict(n=n, steps=steps, P=P, family=fam,
-                D=float(10 ** draw(st.floats(np.log10(0.05), np.log10(dmax)))), zoom=draw(st.sampled_from([0.7, 1.0, 1.2, 1.5])),
+                D=float(10 ** draw(st.floats(np.log10(dlo), np.log10(max(dmax, dlo * 1.2))))), zoom=draw(st.sampled_from([0.7, 1.0, 1.2, 1.5])),
                 it=it, deriv=draw(st.sampled_from([3, 4])),
-                zr=float(10 ** draw(st.floats(1, 3))), zl=float(draw(st.floats(-1, 1))))
+                zr=float(10 ** draw(st.floats(1, 3))), zl=float(draw(st.floats(-1, 1))),
+                ratio=(draw(st.sampled_from([0.2, 0.3, 0.5])) if two else 0.0),
+                first_strong=draw(st.booleans()), sps=draw(st.floats(1.1, 1.8)))
 
 
 def subs(tier):
-    return [Sub("haissinski", cases(fast=(tier == "quick")), run_case, quick=64, thorough=480, needs=("rel", "h5x"), shrink_budget=10,
+    return [Sub("haissinski", cases(fast=(tier == "quick")), run_case, quick=96, thorough=480, needs=("rel", "h5x"), shrink_budget=10,
                 max_wall={"quick": 500, "thorough": 3000})]
